@@ -18,7 +18,7 @@ use std::sync::Arc;
 use std::task::Poll;
 use std::time::Duration;
 
-const CLASSES: [&str; 12] = ["P8", "PB", "L40", "LS", "S4", "L16", "S1", "Z0", "ZA", "N4", "N8", "N40"];
+const CLASSES: [&str; 13] = ["P8", "PB", "L40", "LS", "S4", "L16", "S1", "Z0", "ZA", "N4", "N8", "N40", "A32"];
 const D_US: u32 = 3000;
 
 #[derive(Clone, Debug)]
@@ -1443,7 +1443,7 @@ fn fam_random<T: Payload>(c: &Case, cx: &mut Ctx) -> Outcome {
     sc.finish(cx.lin_budget, &mut cx.obs, &mut cx.samples, &mut cx.lin_states)
 }
 fn space_random(cs: &mut Vec<Case>, class: &'static str) {
-    for cap in [Some(0), Some(1), Some(2), None] {
+    for cap in [Some(0), Some(1), Some(2), None, Some(0), Some(1), Some(3), Some(5)] {
         for a in 0..64 {
             for d in 0..8 {
                 cs.push(Case { fam: "random", class, cap, a, b: 0, c: 0, d, seed: 0 });
